@@ -90,6 +90,7 @@ inductive HStep
   | likeKw (b a : String)                    -- b = Fxp(like=a)
   | deepcopy (b a : String)                  -- b = a.deepcopy() / copy.deepcopy(a)
   | likeM (b a t : String)                   -- b = a.like(t)
+  | fxpLike (b a : String) (v : Rat)         -- b = fxpmath.fxp_like(a, v): a deep copy of a holding v
   | conv (b a : String) (fmt : Fmt)          -- b = Fxp(a, fmt…)
   | add (c a b : String)                     -- c = a + b   (also np.add)
   | invert (c a : String)                    -- c = ~a
@@ -116,6 +117,12 @@ def Heap.step (h : Heap) : HStep → Heap
     match h.find a with
     | none => h
     | some x => h.alloc b x.fmt x.rows x.cols (h.cfgOf x) (h.flagsOf x) (h.codes x)
+  | .fxpLike b a v =>
+    match h.find a with
+    | none => h
+    | some x =>
+      let (cs, fl) := storeConds x.fmt (h.cfgOf x) [scale v x.fmt.nfrac]
+      h.alloc b x.fmt 0 0 (h.cfgOf x) (orFlags (h.flagsOf x) fl) cs
   | .likeM b a t =>
     match h.find a, h.find t with
     | some x, some y =>
